@@ -985,6 +985,9 @@ func planC08(tier string, seed int64) (*Plan, error) {
 		}
 		jobs = append(jobs, job("H_c08_quote", "cfg", c, "seed", sd, "pos", len(sd), "window", 1, "nest", 2))
 	}
+	// long documents (plans3.go): inside a quote the container never closes, so per-document tables keep growing
+	lj, lb := longDocJobs("H_c08_quote", thorough, false, []string{coreU, gfmS})
+	jobs = append(jobs, lj...)
 	// corpus: W(C',1) over documents without TAB/CR
 	docs, err := LoadCorpus()
 	if err != nil {
@@ -1020,6 +1023,7 @@ func planC08(tier string, seed int64) (*Plan, error) {
 		"tokens":        fmt.Sprintf("every sequence of %d tokens from each of %q (HTML block types 1-7 opened, closed and followed by more lines; %d tokens quoted twice), %d from contain5, %d from blocks2 without TAB (GFM)", nt, htmlToks, nt-1, nt, nt-2),
 		"W(C',1)":       fmt.Sprintf("%d seeded (TAB/CR-free corpus document, offset) pairs with one symbolic byte", nwin),
 		"multi-line":    fmt.Sprintf("%d documents whose inline constructs span lines (reference labels, titles, code spans, raw HTML, emphasis, hard breaks, Setext headings), one symbolic byte at 3 offsets, quoted once and twice", len(multi)),
+		"long":          lb,
 		"spec":          fmt.Sprintf("%d TAB/CR-free non-blank examples of _test/spec.json, quoted, against the expected HTML of spec.json wrapped in a blockquote (core, unsafe, XHTML)", nspec),
 		"outside":       "longer free-form documents; quoting depth > 2",
 	}
@@ -1085,6 +1089,17 @@ func planC09(tier string, seed int64) (*Plan, error) {
 	// unmatched backticks in A, code spans in B
 	jobs = append(jobs, job("H_c09_indep", "cfg", core, "an", 2, "bn", 3, "alphaA", "`a\n", "alphaB", "`a\n"))
 	jobs = append(jobs, job("H_c09_indep", "cfg", gfm, "an", 3, "bn", 3, "alphaA", "`a ", "alphaB", "`a"))
+	// token sequences: list items (empty items, bare markers with the content on the next line), and table rows
+	// with code spans and escaped pipes (state kept by the list parsers / the table transformer across blocks)
+	listToks := joinTok([]string{"- ", "-", "\n", "  ", "a"})
+	tblToks := joinTok([]string{"| a |\n|---|\n", "| `x` a\\|b |\n", "| `c\\|d` |\n", "| ` |\n", "a\n", "\n"})
+	nl := 4
+	if thorough {
+		nl = 5
+	}
+	jobs = append(jobs, job("H_c09_indep", "cfg", core, "an", 2, "bn", nl, "tokensA", listToks, "tokensB", listToks))
+	jobs = append(jobs, job("H_c09_indep", "cfg", gfm, "an", 3, "bn", nl-1, "tokensA", listToks, "tokensB", listToks))
+	jobs = append(jobs, job("H_c09_indep", "cfg", gfm, "an", 3, "bn", nl-2, "tokensA", tblToks, "tokensB", tblToks))
 	// A closed by construction: a one-line or closed HTML block / a closed fence, with a symbolic byte inside; B free
 	for i, ta := range []tmpl{{"<!XX>", 2, 2}, {"<!DOCTYPE hXml>", 11, 1}, {"<?X?>", 2, 1}, {"<!--X-->", 4, 1}, {"<![CDATA[X]]>", 9, 1}, {"<pre>X</pre>", 5, 1}, {"a\n\n<!X>", 5, 1}, {"```\nX\n```", 4, 1}, {"~~~~\nX\n~~~~\n", 5, 1}, {"<div>\nX\n</div>\n", 6, 1}} {
 		c := []string{core, gfm}[i%2]
@@ -1154,6 +1169,7 @@ func planC09(tier string, seed int64) (*Plan, error) {
 	p.Bounds = map[string]interface{}{
 		"S(an)xS(bn)":   "A and B jointly symbolic, every byte string: lengths (an,bn) with an+bn<=2 x {core unsafe, GFM safe} and (2,1) core (thorough: all an+bn<=3 both configurations, (2,2), (3,0), (0,3))",
 		"alphabets":     fmt.Sprintf("A of length %d and B of length %d over the same alphabet; A of %d with B of 1 and A of 1 with B of %d over neighbouring alphabets (quick: a seeded third of them): %q", na, nb, na+1, na+1, alphas),
+		"tokens":        fmt.Sprintf("A every sequence of 2 and B of %d tokens (GFM: 3 and %d) from {'- ', '-', LF, 2 spaces, a} (empty list items, bare markers with the content on the next line); A of 3 and B of %d tokens from table fragments with code spans and escaped pipes (GFM)", nl, nl-1, nl-2),
 		"corpus":        fmt.Sprintf("%d seeded (closed corpus document A, offset) pairs with one symbolic byte and a free 1-byte B; the same for B with a free 1-byte A; %d pairs of corpus documents with one symbolic byte in each", nwin, nwin/2),
 		"closed(A)":     "syntactic sufficient condition assumed by the solver: no < [ CR in A, no run of three backticks or tildes; last non-blank line of A has no TAB and no run of 4 spaces. B: no [ and no CR. In addition 10 templates of A closed by construction (one-line HTML blocks of types 2-5, <pre>, <div> block, closed fences) with a symbolic byte inside and a free B",
 		"references":    "11 reference templates (6 of them ending in a one-line/closed HTML block or closed fence directly in front of the moved definitions) x 4 whitespace spellings inside labels x every per-letter case flip of every use of a label (symbolic bits); plus a 1-byte symbolic window (not ` ~ < : CR) at seeded offsets of X under a seeded case-flip mask; the same behind an unrelated paragraph of 300, 1100 and 4200 bytes",
@@ -1683,6 +1699,13 @@ func planC20(tier string, seed int64) (*Plan, error) {
 	each("H_c20_inline", 3, "n", 3)
 	each("H_c20_render", 3, "n", 3)
 	each("H_c20_transformers", 4, "n", 2)
+	// other trigger bytes: DEL, UTF-8 continuation / lead bytes, 0xFF, a control byte (the dispatch tables are indexed by the raw byte)
+	// (inline triggers must be punctuation or a space by the documented contract of InlineParser.Trigger)
+	itrigs := []int{'$', '=', '^', '{', '|', ';'}
+	for i, tb := range []int{0x7f, 0x80, 0xe2, 0xff, 0x01, '$'} {
+		jobs = append(jobs, job("H_c20_block", "nt", 2, "nf", 1, "order", (i+int(seed))%6, "route", i%3, "trig", tb, "doc", i%3))
+		jobs = append(jobs, job("H_c20_inline", "n", 2, "order", i%2, "route", (i+1)%3, "itrig", itrigs[i]))
+	}
 	// priorities over the whole int range (negative values, differences beyond MaxInt)
 	jobs = append(jobs, job("H_c20_inline", "n", 3, "order", int(seed)%6, "route", 0, "wide", 1), job("H_c20_render", "n", 3, "order", int(seed+1)%6, "route", 1, "wide", 1),
 		job("H_c20_transformers", "n", 2, "order", int(seed+2)%24, "route", 2, "wide", 1), job("H_c20_block", "nt", 2, "nf", 0, "order", int(seed)%2, "route", 0, "wide", 1))
@@ -1697,6 +1720,7 @@ func planC20(tier string, seed int64) (*Plan, error) {
 	p.Jobs = jobs
 	p.Bounds = map[string]interface{}{
 		"priorities":   "symbolic integers in [1,1999] (and, in one job per component type, any 64-bit integer), pairwise distinct and different from 1000 (built-in paragraph parser / HTML renderer): every relative order among the probes and against every built-in priority is covered by solver forks in the real sort.Slice comparator",
+		"triggers":     "block probes on '@' and inline probes on '%'; additionally one job per block trigger byte 0x7F, 0x80, 0xE2, 0xFF, 0x01, '$' and per inline trigger $ = ^ { | ; (inline triggers must be punctuation or space by the documented contract)",
 		"components":   "block parsers: 2 on trigger '@' + 1 trigger-less, 1+1, 2+0 (thorough 2+2); inline parsers: 3 on trigger '%' (4 in one order; thorough all); node renderers: 3 overriding ThematicBreak (4 in one order); 2 paragraph + 2 AST transformers (3+3 in one order); which probe accepts is a solver-enumerated choice including 'none'; block probes are exercised on a line that opens the document, on a line behind a paragraph line, and on such a line inside a block quote; paragraph transformers are observed relative to the built-in link-reference transformer at 100 (they see one line less once it has run)",
 		"registration": "every permutation of the registration order x route {options of New, one Extender calling AddOptions, alternating} (quick: one seeded route per permutation; thorough: all three)",
 		"missing kind": "a node of a kind created after every kind known to the renderer, with a paragraph below it, is rendered: no error, children rendered",
